@@ -143,6 +143,45 @@ CHECKS.update({
     },
 })
 
+CHECKS.update({
+    'C13': {
+        'level': 'model_checking', 'design_ref': 'DESIGN.md section 5 (C13)',
+        'technique': 'explicit-state exploration of 2-3 real server protocol instances on a virtual reactor, safety invariants + bounded-response probe in every state',
+        'text': 'State graph of 2 (thorough also 3) real comms.Worker connections sharing context.db_lock, explored breadth '
+        'first to a fixpoint: acquire, release, connection loss at every protocol step, advance to next timer, advance '
+        'one second (all relative poll phases). Every state: at most one owner, lock bit <=> an owner exists, "lock is '
+        'yours" sent only in the step the connection acquired it, a dropped holder frees the lock in the same step, a '
+        'dropped waiter never acquires and its poll timer dies, a live poll on a free lock is granted; from every state '
+        'with a free lock and a live waiter a grant occurs within one poll period.',
+        'note': 'at most 2 (thorough 3) connections per client per history; clients release only after being told they '
+        'hold the lock (as comms.acquire/release do); the client side of the protocol is exercised by every store check '
+        '(C06-C08, C15, C17) through the loopback.',
+    },
+    'C14': {
+        'level': 'model_checking', 'design_ref': 'DESIGN.md section 5 (C14)',
+        'technique': 'induction over split offsets: every two-chunk split of every stream prefix must reach the one-chunk state; all chunkings outright for reduced streams',
+        'text': 'For farm.Hand, comms.Worker and logger.LogSink, with and without the legacy handshake wrapper, and every '
+        'stream of the alphabet (1-3 messages; handshake valid / bad first word / bad signature / bad second word / bad '
+        'echo signature / wrong echo / short length, each followed by coalesced application bytes): for all i<j feeding '
+        'B[:i] then B[i:j] must give the state of feeding B[:j] at once, hence every chunking delivers what whole '
+        'delivery does; whole delivery equals the reference; nothing is delivered before the last handshake byte; failed '
+        'handshakes close with nothing delivered. Reduced streams: all 2^(n-1) chunkings (db: all chunkings with <=3 cuts).',
+        'note': 'gnupg replaced by a stand-in signature scheme (the phase machine is the subject); after loseConnection no more '
+        'bytes are fed (Twisted stops reading); real TLS sockets are not runnable here.',
+    },
+    'C19': {
+        'level': 'exploration', 'design_ref': 'DESIGN.md section 5 (C19)',
+        'technique': 'exhaustive enumeration of request paths over a segment alphabet and of endpoint x method x certificate x hook configurations',
+        'text': '(a) every request path of <=4 (thorough 5) segments over 10 symbols x leading slashes x query x isdep through '
+        'the real fe._static on a scratch tree with symlinks and tagged outside files: no opened file resolves outside '
+        'the roots, no outside token in the reply. (b) every DynamicContent found by walking the route tree x 4 methods x '
+        'certificates configured x certificate presented x 5 access hooks: without certificate no run/reset/submit/'
+        'snapshot handler runs; a raising or unresolvable hook denies everything; legitimate callers are served.',
+        'note': 'handlers are replaced by recorders while the access decision is exercised; request.uri is not percent-decoded '
+        '(as Twisted delivers it).',
+    },
+})
+
 _PENDING = 'check not built yet in this session (planned in DESIGN.md); will move to checks when it exists'
 NOT_APPLICABLE = {
     pid: _PENDING
